@@ -15,6 +15,7 @@ import random
 from lib import *
 
 MUTANTS = ["flush-le", "no-reset", "term-uncounted", "bypass-ge", "swallow-flush-error"]
+WDEPS = ["Writer.tla", "WriterProp.tla", "MC_Writer.tla"]
 INVS = ["NoViolation", "FillWithinCapacity", "NoAutoFlush", "PendIsBuffer"]
 
 
@@ -38,7 +39,7 @@ def exhaustive(res, tier, wd):
             if not r["ok"] or r["violated"] or r["errors"]:
                 r["tail"] = out[-1500:]
             return r
-        return tlc_cached("writer-mc-%d-%d-%d" % (c, t, faults), go)
+        return tlc_cached("writer-mc-%d-%d-%d" % (c, t, faults), go, deps=WDEPS)
 
     rs = pmap(one, grid)
     for (c, t), r in zip(grid, rs):
@@ -65,7 +66,7 @@ def mutants(res, tier, wd):
                     hit.append({"Cap": c, "TLen": t, "violated": r["violated"]})
                     break
             return {"bug": bug, "refuted": bool(hit), "hit": hit}
-        return tlc_cached("writer-mutant-" + bug, go)
+        return tlc_cached("writer-mutant-" + bug, go, deps=WDEPS)
     rs = pmap(one, MUTANTS)
     missed = [r["bug"] for r in rs if not r["refuted"]]
     if missed:
